@@ -80,7 +80,7 @@ PROPS = {
         level="exploration",
         runs=dict(quick=100000, thorough=1500000),
         rule="family status on the virtual clock: wait_timeout(d) with d in {0, sub-ms, ms, s, hours, 26 d, 8 weeks} x child exit before / inside a back-off interval / at the deadline / never; poll at random instants; every third run with late timers and stalls; non-trivial = wait_timeout(d>0) ran to its deadline or the child ended inside the call; distinct as C01",
-        assumptions=COMMON_ASSUME + ["long timeouts without child exit are bounded to 10 min (quick) / 3 h in 1 of 97 runs so that the 100 ms back-off loop stays within the step budget"],
+        assumptions=COMMON_ASSUME + ["long timeouts without child exit are bounded to 10 min / 3 h in 1 of 97 runs so that the 100 ms back-off loop stays within the step budget; the thorough tier adds, every 40 000th index, one full wait_timeout of 26 days against a child that never exits (22 million back-off iterations)"],
         expect_probes=["child_exit_inside_wait_timeout", "timer_late", "stall"],
     ),
     "C12": dict(
